@@ -21,6 +21,7 @@ def main():
         print(n, 'CAUGHT' if out[n]['caught'] else 'MISSED', caught, out[n]['classes'], flush=True)
     p = os.path.join(VERIF, 'evidence', 'sensitivity.json')
     old = json.load(open(p)) if os.path.exists(p) and sel else {}
+    old = {k: v for k, v in old.items() if os.path.exists(os.path.join(os.path.dirname(os.path.abspath(__file__)), "..", "sensitivity", k + ".diff"))}
     old.update(out); json.dump(old, open(p, 'w'), indent=1)
     return 0 if all(v['caught'] for v in out.values()) else 1
 if __name__ == '__main__': sys.exit(main())
